@@ -68,6 +68,7 @@ def json_namespace(repo, ci):
 
 def run(ctx):
     repo = ctx.repo
+    _no_hash_keyed_tables(ctx, repo)
     _bytes_identity_rule(ctx, repo)
     _key_string_rule(ctx, repo)
     shared.module_state_rule(ctx, 'C11.j', ['cirq-core/cirq/protocols/', 'cirq-core/cirq/value/', 'cirq-core/cirq/study/', 'cirq-core/cirq/_compat.py'], floor=3)
@@ -656,3 +657,48 @@ def _key_string_rule(ctx, repo):
         ctx.ob('C11.l', f'{ci.qual}.parse_serialized:depth={len(path)}', ok, '' if ok else
                f'str(MeasurementKey(name="m", path={path})) = {text!r} is parsed back as name={getattr(back, "name", None)!r}, path={getattr(back, "path", None)!r}: a measurement gate read from JSON '
                'gets a key with a different path (still == as a string, but path, repr, ordering and scope binding differ)', ci.mod.rel, pfn.lineno)
+
+
+def _no_hash_keyed_tables(ctx, repo):
+    """C11.m - sharing tables of the writers are keyed by the value, never by its hash."""
+    ctx.decided.append('C11.m memo / constants tables of the JSON and proto writers are keyed by the object itself: a table keyed by hash(obj) identifies different values whose hashes collide '
+                       '(hash(-1) == hash(-2) carries through qubit and circuit hashes)')
+    ctx.rule('C11.m', 'value-keyed sharing: in cirq.protocols.json_serialization and the cirq_google serializers, no dictionary is indexed, searched (`in`, .get, .setdefault) or stored into '
+             'with a key that is a hash(...) call or a local defined as one - two different sub-circuits with equal hashes would be written once and read back as copies of the first',
+             floor=4, style='WR')
+    n = 0
+    for m in sorted(repo.modules.values(), key=lambda x: x.rel):
+        if not (m.rel.endswith('cirq/protocols/json_serialization.py') or m.rel.startswith('cirq-google/cirq_google/serialization/')) or m.rel.endswith('_test.py'):
+            continue
+        for fn in [f for f in ast.walk(m.tree) if isinstance(f, (ast.FunctionDef, ast.AsyncFunctionDef))]:
+            hashed = set()
+            for a in ast.walk(fn):
+                v = getattr(a, 'value', None)
+                if isinstance(a, (ast.Assign, ast.NamedExpr, ast.AnnAssign)) and isinstance(v, ast.Call) and call_name(v) == 'hash':
+                    for t in (a.targets if isinstance(a, ast.Assign) else [a.target]):
+                        if isinstance(t, ast.Name):
+                            hashed.add(t.id)
+
+            def is_hash(e):
+                return (isinstance(e, ast.Call) and call_name(e) == 'hash') or (isinstance(e, ast.Name) and e.id in hashed)
+            k = 0
+            for x in ast.walk(fn):
+                key = tab = None
+                if isinstance(x, ast.Subscript) and isinstance(x.value, (ast.Name, ast.Attribute)) and not isinstance(x.slice, (ast.Slice, ast.Tuple, ast.Constant)):
+                    tab, key = x.value, x.slice
+                elif isinstance(x, ast.Call) and isinstance(x.func, ast.Attribute) and x.func.attr in ('get', 'setdefault', 'pop') and x.args and isinstance(x.func.value, (ast.Name, ast.Attribute)):
+                    tab, key = x.func.value, x.args[0]
+                elif isinstance(x, ast.Compare) and len(x.ops) == 1 and isinstance(x.ops[0], (ast.In, ast.NotIn)) and isinstance(x.comparators[0], (ast.Name, ast.Attribute)):
+                    tab, key = x.comparators[0], x.left
+                if tab is None:
+                    continue
+                tname = ast.unparse(tab)
+                if not any(w in tname.lower() for w in ('memo', 'constants', 'cache', 'table', 'seen')):
+                    continue
+                k += 1
+                n += 1
+                ok = not is_hash(key)
+                ctx.ob('C11.m', f'{m.name}.{fn.name}:{tname}#{k}', ok, '' if ok else
+                       f'`{ast.unparse(x)[:70]}` looks the object up by its hash: a different object with the same hash is taken for it', m.rel, x.lineno)
+    if n == 0:
+        raise AnalysisError('C11.m: no sharing table found in the writers')
